@@ -5,7 +5,14 @@ use texlang::*;
 
 /// Get the `\chardef` command.
 pub fn get_chardef<S: TexlangState>() -> command::BuiltIn<S> {
-    command::BuiltIn::new_execution(chardef_primitive_fn)
+    command::BuiltIn::new_execution(chardef_primitive_fn).with_tag(chardef_tag())
+}
+
+static CHARDEF_TAG: command::StaticTag = command::StaticTag::new();
+
+/// Tag of the `\chardef` command; used to allow the `\global` prefix (TeX.2021.1210 and 1224).
+pub fn chardef_tag() -> command::Tag {
+    CHARDEF_TAG.get()
 }
 
 fn chardef_primitive_fn<S: TexlangState>(
